@@ -1,0 +1,102 @@
+//go:build verif
+
+package p9
+
+import (
+	"bytes"
+	"fmt"
+	"io"
+
+	"github.com/u-root/uio/ulog"
+)
+
+// Verification hooks (build tag "verif" only). They add read-only access to
+// unexported functions so that generated-input checks can drive them
+// in-process; nothing here is compiled into a normal build.
+
+// VerifRecvReencode receives one frame from r through the real registry and
+// re-encodes the decoded message with the real encoder.
+//
+// kind: 0 = decoded (canon holds the re-encoded frame), 1 = protocol error
+// (frame rejected, stream still usable), 2 = connection error.
+func VerifRecvReencode(r io.Reader, msize uint32) (tag uint16, typ uint8, canon []byte, kind int, err error) {
+	t, m, err := recv(ulog.Null, r, msize, msgDotLRegistry.get)
+	if err != nil {
+		if _, ok := err.(ConnError); ok {
+			return uint16(t), 0, nil, 2, err
+		}
+		return uint16(t), 0, nil, 1, err
+	}
+	var buf bytes.Buffer
+	if err := send(ulog.Null, &buf, t, m); err != nil {
+		return uint16(t), uint8(m.typ()), nil, 2, err
+	}
+	typ = uint8(m.typ())
+	msgDotLRegistry.put(m)
+	return uint16(t), typ, buf.Bytes(), 0, nil
+}
+
+// VerifRegisteredTypes lists the registered message type bytes.
+func VerifRegisteredTypes() []uint8 {
+	var out []uint8
+	for i := range msgDotLRegistry.factories {
+		if msgDotLRegistry.factories[i].create != nil {
+			out = append(out, uint8(i))
+		}
+	}
+	return out
+}
+
+// VerifLargestFixedSize returns the registry's largest fixed message size.
+func VerifLargestFixedSize() uint32 {
+	return msgDotLRegistry.largestFixedSize
+}
+
+// VerifNewPool returns the Get and Put operations of a fresh tag/fid
+// allocator over [start, limit).
+func VerifNewPool(start, limit uint64) (get func() (uint64, bool), put func(uint64)) {
+	p := &pool{start: start, limit: limit}
+	return p.Get, p.Put
+}
+
+// VerifPathTreeCheck walks the server's path tree (read-only) and reports the
+// first structural inconsistency: childRefs and childRefNames must agree,
+// every listed reference must name the listing node's owner as its parent, and
+// no node reachable from the root may carry the deleted mark. It must only be
+// called while no request is in flight.
+func (s *Server) VerifPathTreeCheck() error {
+	return verifCheckNode(s.pathTree, "")
+}
+
+func verifCheckNode(p *pathNode, where string) error {
+	p.childMu.RLock()
+	defer p.childMu.RUnlock()
+	if p.deleted != 0 {
+		return fmt.Errorf("node %q reachable from the root is marked deleted", where)
+	}
+	n := 0
+	for name, m := range p.childRefs {
+		if len(m) == 0 {
+			return fmt.Errorf("node %q: empty reference set kept for %q", where, name)
+		}
+		for ref := range m {
+			n++
+			got, ok := p.childRefNames[ref]
+			if !ok || got != name {
+				return fmt.Errorf("node %q: reference listed under %q but named %q (present=%v)", where, name, got, ok)
+			}
+			if ref.parent == nil || ref.parent.pathNode != p {
+				return fmt.Errorf("node %q: reference %q has a parent on another node", where, name)
+			}
+		}
+	}
+	if n != len(p.childRefNames) {
+		return fmt.Errorf("node %q: %d references by name, %d names by reference", where, n, len(p.childRefNames))
+	}
+	for name, c := range p.childNodes {
+		if err := verifCheckNode(c, where+"/"+name); err != nil {
+			return err
+		}
+	}
+	return nil
+}
